@@ -26,6 +26,7 @@ From FT Require Proofs.EditBook Proofs.EditUAN Proofs.EditInverseNode.
 From FT Require Proofs.HistoryGeneric Proofs.EditSessions Proofs.EditSessionsFull Proofs.EditSessionsAll.
 From FT Require Gen.UserActions_gen Proofs.UserActionsTie.
 From FT Require Proofs.EditSessionsFull.
+From FT Require Proofs.CoreTieBundle.
 Import ListNotations.
 Open Scope Z_scope.
 
@@ -334,6 +335,16 @@ Theorem C01_consistent_update_attrs : forall st n new a st',
   user_update_attrs_core st n new = Ok a st' -> EditSessions.TrW a st st'.
 Proof. exact EditSessionsFull.C01_TrW_update_attrs. Qed.
 
+(* ---- one level further down: the queries (get_track_neighbors with its in-place sort, has_track_id_at_time,
+        next track / lineage id), the node-id counter, Tracks.undo / redo and the seven basic actions with their
+        inverses (__init__, _apply, the annotator notifications, the track-annotator bookkeeping and relabel
+        walk inlined) of the model equal the code translated on every run from data_model/solution_tracks.py,
+        data_model/tracks.py, annotators/_track_annotator.py and actions/*.py (Gen/Core_gen.v; translator
+        harness/translate_core.py, fail closed).  The statement is Proofs/CoreTieBundle.v: core_tie_statement.
+        Not translated (hand models): the regionprops / edge annotators' update, the bulk compute paths. ---- *)
+Theorem C01_core_is_generated : FT.Proofs.CoreTieBundle.core_tie_statement.
+Proof. exact FT.Proofs.CoreTieBundle.core_tie. Qed.
+
 Example C01_example_run :
   let s1 := step ex0 (OAddEdge 1 2 false) in
   let s2 := step (fst s1) OUndo in
@@ -457,3 +468,4 @@ Print Assumptions C01_sessions.
 Print Assumptions C01_user_actions_are_generated.
 Print Assumptions C01_consistent_paint.
 Print Assumptions C01_consistent_update_attrs.
+Print Assumptions C01_core_is_generated.
